@@ -157,6 +157,10 @@ def run(tier, rep):
     for k, d in enumerate(gen.sample(docs, 6000 if q else 80000, C.SEED + 3) + dense):
         for n, rel in enumerate(("table", "strikethrough", "inline_definitions", "store_labels")):
             j2.append((rel, bases[(k + n) % len(bases)], d))
+    # the two extensions against the barest base (zero preset: nothing else is enabled that could mask a difference)
+    zero = gen.cfg_key(gen.BASE_CONFIGS[2])
+    for k, d in enumerate(gen.sample(docs, 5000 if q else 60000, C.SEED + 4, keep_short=1500)):
+        j2.append((("table", "strikethrough")[k % 2], zero, d))
     t2 = C.pmap(rec_pair, j2, chunk=200)
     verdicts, st = C.validate_traces("SwitchesTrace", t1 + t2, shard=4000, heap="8g")
     rep.tlc_stats("SwitchesTrace", st, len(t1) + len(t2))
